@@ -78,13 +78,14 @@ Definition local_set_op (key : seqkey) (l : list ditem) (newid : id) (c : uconte
 
 (* ---------- sticky indexes ---------- *)
 Inductive anchor := AItem (i : id) | ABranch.
-(* StickyIndex::at(index, assoc): None = index out of range *)
+(* StickyIndex::at(index, assoc): None = index out of range; Assoc::After needs an element AT the index, so the very
+   end (also of an empty sequence) has no After anchor (sticky_index.rs: `else if walker.finished() { None }`) *)
 Definition nth_live (l : list ditem) (i : nat) : option ditem := nth_error (filter live l) i.
 Definition sticky_at (l : list ditem) (i : nat) (after : bool) : option anchor :=
   if after then
     match nth_live l i with
     | Some x => Some (AItem (did x))
-    | None => if Nat.eqb i (length (filter live l)) then Some ABranch else None
+    | None => None
     end
   else
     match i with
